@@ -1117,7 +1117,8 @@ class PolyhedralTermList(TermList):  # noqa: WPS338
                 is_refinement = False
                 break
             else:
-                if -res["fun"] <= b_temp:  # noqa: WPS309
+                # the optimum is computed in floating point: allow for round-off in the comparison
+                if -res["fun"] <= b_temp + 1e-9 * (1 + abs(b_temp)):  # noqa: WPS309, WPS432
                     logging.debug("Redundant constraint")
                 else:
                     is_refinement = False
